@@ -36,6 +36,7 @@ class PolicyEnv(Env):
     def abort_if(self) -> bool:
         if self.with_retry:
             return super().abort_if()
+        self._fault("abort")
         sc = self._next("prepoll")
         ans = bool(sc["ans"]) if sc else False
         self.trace.append({"e": "prepoll", "ans": ans})
